@@ -944,11 +944,38 @@ func checkLiveKeysUsedUnderLock(c *Ctx, rule string) {
 		if fn.Signature.Recv() == nil || recvName(fn) != "Manager" || fn.Parent() != nil || len(fn.Params) == 0 {
 			continue
 		}
-		isLiveLoad := func(v ssa.Value) bool {
-			tn, f, base, ok := fieldOf(stripConv(v))
-			return ok && tn == "Manager" && live[f] && base == ssa.Value(fn.Params[0])
+		var isLiveLoad func(v ssa.Value) bool
+		isLiveLoad = func(v ssa.Value) bool {
+			v = stripConv(v)
+			if tn, f, base, ok := fieldOf(v); ok && tn == "Manager" && live[f] && base == ssa.Value(fn.Params[0]) {
+				return true
+			}
+			// the key copied into a local that a function literal of the method captures
+			if u, ok := v.(*ssa.UnOp); ok && u.Op == token.MUL {
+				var cell ssa.Value = u.X
+				if fv, isFV := cell.(*ssa.FreeVar); isFV {
+					cell = freeVarRoot(fv)
+				}
+				if al, isAl := cell.(*ssa.Alloc); isAl {
+					for _, st := range storesTo(al) {
+						if st.Val != v && isLiveLoad(st.Val) {
+							return true
+						}
+					}
+				}
+			}
+			if fv, isFV := v.(*ssa.FreeVar); isFV {
+				if r := freeVarRoot(fv); r != ssa.Value(fv) {
+					return isLiveLoad(r)
+				}
+			}
+			return false
 		}
-		for _, ci := range callsOf(fn) {
+		var sites []ssa.CallInstruction
+		for _, f := range Closures(fn) {
+			sites = append(sites, callsOf(f)...)
+		}
+		for _, ci := range sites {
 			cc := ci.Common()
 			uses := false
 			if cc.IsInvoke() && isLiveLoad(cc.Value) {
@@ -1534,66 +1561,69 @@ func checkImportAddressIDAgreesWithConstructor(c *Ctx, rule string) {
 	}
 	// the type-specific shaping steps (the plain hash160 is common to all types and computed outside the switch in one of the two)
 	vocab := map[string]bool{"ComputeTaprootKeyNoScript": true, "ComputeTaprootOutputKey": true, "PayToAddrScript": true}
-	arms := func(fn *ssa.Function) map[string]map[string]bool {
+	arms := func(top *ssa.Function) map[string]map[string]bool {
 		out := map[string]map[string]bool{}
-		for _, b := range fn.Blocks {
-			for si, succ := range b.Succs {
-				ef := edgeFactOf(b, si)
-				if ef == nil || ef.Kind != "true" {
-					continue
-				}
-				bo, ok := ef.V.(*ssa.BinOp)
-				if !ok || bo.Op != token.EQL {
-					continue
-				}
-				cst, ok := bo.Y.(*ssa.Const)
-				if !ok {
-					continue
-				}
-				nm, ok := cst.Type().(*types.Named)
-				if !ok || nm.Obj().Name() != "AddressType" {
-					continue
-				}
-				name := strings.TrimPrefix(valueDesc(cst), "waddrmgr.")
-				set := out[name]
-				if set == nil {
-					set = map[string]bool{}
-					out[name] = set
-				}
-				// the arm: blocks dominated by the case body (for `case A, B:` the body has several predecessors,
-				// so take the blocks reachable from it up to the switch's merge: approximated by domination from succ
-				// or, when succ is shared, by the body block itself and what it dominates)
-				for _, bb := range fn.Blocks {
-					if succ.Dominates(bb) {
-						for _, ins := range bb.Instrs {
-							if call, ok := ins.(*ssa.Call); ok && vocab[calleeShort(&call.Call)] {
-								set[calleeShort(&call.Call)] = true
+		// the function and the private parts it was split into
+		for _, fn := range p.regionOf(top) {
+			for _, b := range fn.Blocks {
+				for si, succ := range b.Succs {
+					ef := edgeFactOf(b, si)
+					if ef == nil || ef.Kind != "true" {
+						continue
+					}
+					bo, ok := ef.V.(*ssa.BinOp)
+					if !ok || bo.Op != token.EQL {
+						continue
+					}
+					cst, ok := bo.Y.(*ssa.Const)
+					if !ok {
+						continue
+					}
+					nm, ok := cst.Type().(*types.Named)
+					if !ok || nm.Obj().Name() != "AddressType" {
+						continue
+					}
+					name := strings.TrimPrefix(valueDesc(cst), "waddrmgr.")
+					set := out[name]
+					if set == nil {
+						set = map[string]bool{}
+						out[name] = set
+					}
+					// the arm: blocks dominated by the case body (for `case A, B:` the body has several predecessors,
+					// so take the blocks reachable from it up to the switch's merge: approximated by domination from succ
+					// or, when succ is shared, by the body block itself and what it dominates)
+					for _, bb := range fn.Blocks {
+						if succ.Dominates(bb) {
+							for _, ins := range bb.Instrs {
+								if call, ok := ins.(*ssa.Call); ok && vocab[calleeShort(&call.Call)] {
+									set[calleeShort(&call.Call)] = true
+								}
 							}
 						}
 					}
 				}
 			}
-		}
-		// the same dispatch spelled as a table of per-type builder functions
-		for _, tl := range p.tableLookupsIn(fn) {
-			for _, e := range tl.Entries {
-				cst, ok := e.Key.(*ssa.Const)
-				if !ok {
-					continue
-				}
-				nm, ok := cst.Type().(*types.Named)
-				if !ok || nm.Obj().Name() != "AddressType" {
-					continue
-				}
-				name := strings.TrimPrefix(valueDesc(cst), "waddrmgr.")
-				if out[name] == nil {
-					out[name] = map[string]bool{}
-				}
-				if g := fnValueOf(e.Val); g != nil {
-					for _, f := range Closures(g) {
-						for _, ci := range callsOf(f) {
-							if vocab[calleeShort(ci.Common())] {
-								out[name][calleeShort(ci.Common())] = true
+			// the same dispatch spelled as a table of per-type builder functions
+			for _, tl := range p.tableLookupsIn(fn) {
+				for _, e := range tl.Entries {
+					cst, ok := e.Key.(*ssa.Const)
+					if !ok {
+						continue
+					}
+					nm, ok := cst.Type().(*types.Named)
+					if !ok || nm.Obj().Name() != "AddressType" {
+						continue
+					}
+					name := strings.TrimPrefix(valueDesc(cst), "waddrmgr.")
+					if out[name] == nil {
+						out[name] = map[string]bool{}
+					}
+					if g := fnValueOf(e.Val); g != nil {
+						for _, f := range Closures(g) {
+							for _, ci := range callsOf(f) {
+								if vocab[calleeShort(ci.Common())] {
+									out[name][calleeShort(ci.Common())] = true
+								}
 							}
 						}
 					}
@@ -1865,7 +1895,20 @@ func checkAddrTypeFollowsBranch(c *Ctx, rule string) {
 // called in that arm (blocks dominated by the arm's body; `case A, B:` shares one body).
 func constCaseArms(fn *ssa.Function, typeName string) map[string]map[string]bool {
 	out := map[string]map[string]bool{}
-	for _, f := range Closures(fn) {
+	p := theProg
+	isKind := func(v ssa.Value) (string, bool) {
+		cst, ok := v.(*ssa.Const)
+		if !ok {
+			return "", false
+		}
+		nm, ok := cst.Type().(*types.Named)
+		if !ok || nm.Obj().Name() != typeName {
+			return "", false
+		}
+		return valueDesc(cst), true
+	}
+	// the function, its closures and the private parts it was split into
+	for _, f := range p.regionOf(fn) {
 		for _, b := range f.Blocks {
 			for si, succ := range b.Succs {
 				ef := edgeFactOf(b, si)
@@ -1876,15 +1919,10 @@ func constCaseArms(fn *ssa.Function, typeName string) map[string]map[string]bool
 				if !ok || bo.Op != token.EQL {
 					continue
 				}
-				cst, ok := bo.Y.(*ssa.Const)
+				name, ok := isKind(bo.Y)
 				if !ok {
 					continue
 				}
-				nm, ok := cst.Type().(*types.Named)
-				if !ok || nm.Obj().Name() != typeName {
-					continue
-				}
-				name := valueDesc(cst)
 				if out[name] == nil {
 					out[name] = map[string]bool{}
 				}
@@ -1894,6 +1932,26 @@ func constCaseArms(fn *ssa.Function, typeName string) map[string]map[string]bool
 							if call, ok := ins.(*ssa.Call); ok {
 								out[name][calleeShort(&call.Call)] = true
 							}
+						}
+					}
+				}
+			}
+		}
+		// the same dispatch spelled as a literal table keyed by the kind: the arm is the entry's function
+		for _, tl := range p.tableLookupsIn(f) {
+			for _, e := range tl.Entries {
+				name, ok := isKind(e.Key)
+				if !ok {
+					continue
+				}
+				if out[name] == nil {
+					out[name] = map[string]bool{}
+				}
+				if g := fnValueOf(e.Val); g != nil {
+					out[name][g.Name()] = true
+					for _, h := range Closures(g) {
+						for _, ci := range callsOf(h) {
+							out[name][calleeShort(ci.Common())] = true
 						}
 					}
 				}
